@@ -235,7 +235,8 @@ class C16(Check):
         yield {"variant": "a"}
         yield {"variant": "b"}
         # an fsync that fails (nothing flushed) on each kind of file during a commit
-        for kind in ("metadata", "manifest", "manifest_list", "data", "hint", "marker"):
+        for kind in ("metadata", "manifest", "manifest_list", "data", "hint", "marker",
+                     "dir_metadata", "dir_manifests", "dir_data", "dir_inflight"):
             yield {"variant": f"fault:{kind}"}
         # a short write (the kernel takes only part of the buffer) on each kind of metadata-plane file
         for kind in ("metadata", "manifest", "manifest_list", "hint", "marker"):
